@@ -53,10 +53,28 @@ CasesTop(op) ==
        \cup {Case(Bin(op, Un(o2, LeafExpr(a, 1)), LeafExpr(b, 2)), <<a, b>>) : o2 \in UnOps, a \in L1, b \in L2}
        \cup {Case(Bin(op, LeafExpr(a, 1), Un(o2, LeafExpr(b, 2))), <<a, b>>) : o2 \in UnOps, a \in L2, b \in L1}
 
+\* Families beyond depth 2, where construction-time rewrites would have something to chew on:
+\* (1) two chains of comparisons of a column with literals, joined by and/or (depth 3, four comparison leaves)
+\* (2) two shifts in a row with literal counts around the valid range 0..31 (a count outside it makes the result null,
+\*     whatever the other count is)
+RowXY(x1, x2) == [names |-> RowNames, vals |-> <<IntV(x1), IntV(x2), Null, Null, Null, Null>>]
+CaseOn(e, row) == [e |-> e, row |-> row.vals, want |-> SetToSeq(EvalSet(e, row))]
+Cmp(p, k, v) == Bin(p, Col(XN(k)), Lit(IntV(v)))
+ChainCases ==
+  {CaseOn(Bin(o1, Bin(o2, Cmp(p, 1, q[1]), Cmp(p, 1, q[2])), Bin(o3, Cmp(p, 2, q[3]), Cmp(p, 2, q[4]))), RowXY(x1, x2)) :
+     o1 \in {"or", "and"}, o2 \in {"or", "and"}, o3 \in {"or", "and"}, p \in {"eq", "ne", "lt"},
+     q \in {<<1, 2, 8, 16>>, <<1, 1, 8, 8>>, <<1, 8, 8, 1>>}, x1 \in {1, 8}, x2 \in {8, 16}}
+  \cup {CaseOn(Bin("or", Bin("or", Cmp("eq", 1, 1), Cmp("eq", 2, 8)), Bin("or", Cmp("eq", 1, 2), Cmp("eq", 2, 16))), RowXY(x1, x2)) : x1 \in {1, 2, 8}, x2 \in {8, 16, 1}}
+ShiftCounts == {-1, 0, 1, 2, 30, 31, 32, 33, MinI32 + 5, MaxI32}
+ShiftCases ==
+  {CaseOn(Bin(s2, Bin(s1, Col(XN(1)), Lit(IntV(m))), Lit(IntV(n))), RowXY(x, 0)) :
+     s1 \in {"shl", "shr"}, s2 \in {"shl", "shr"}, m \in ShiftCounts, n \in ShiftCounts, x \in {5, -1, MaxI32}}
+
 VARIABLES stage, case
 vars == <<stage, case>>
-Init == stage \in (UnOps \cup BinOps) /\ case = [none |-> 0]
-Next == /\ stage # "done" /\ case' \in CasesTop(stage) /\ stage' = "done"
+Init == stage \in (UnOps \cup BinOps \cup {"chains", "shifts"}) /\ case = [none |-> 0]
+Next == /\ stage # "done" /\ stage' = "done"
+        /\ case' \in (IF stage = "chains" THEN ChainCases ELSE IF stage = "shifts" THEN ShiftCases ELSE CasesTop(stage))
 Spec == Init /\ [][Next]_vars
 
 \* the law Eval(Fold(e)) = Eval(e): folding literal sub-expressions never changes the admitted results
